@@ -151,6 +151,17 @@ def run(ctx, eng):
     ctx.ob('ARITH.evict', f3.qual, 'evicts oldest while over the limit', ok,
            'while len(self) > self._size_limit: self.popitem(last=False)',
            node=f3.node)
+    # the limit applies whenever one is set - zero included: `is not None`,
+    # not truthiness
+    tests = [ast.unparse(n.test) for n in ast.walk(f3.node)
+             if isinstance(n, ast.If)]
+    truthy = [t for t in tests if '_size_limit' in t and
+              'is not None' not in t and 'is None' not in t and
+              'len(' not in t]
+    ctx.ob('ARITH.evict', f3.qual, 'a limit of zero is a limit',
+           not truthy, 'the limit is tested with `is not None`%s' % (
+               ' (found truthiness test %s)' % truthy if truthy else ''),
+           node=f3.node)
     # "oldest" means oldest inserted: nothing reorders the entries (a read
     # that refreshes an entry would let it outlive newer ones, and the newer
     # ones - still within the documented bound - would be forgotten)
